@@ -9,7 +9,7 @@ evaluated at run time on the real code:
   is a valid derivation tree of exactly that token sequence under the grammar's productions
   (checked structurally: every node is a production whose right-hand side matches its children, the
   leaves spell the input) -- for an unambiguous grammar that is *the* derivation.
-Enumerated: seeded random grammars over <= 3 terminals / <= 3 nonterminals / <= 6 productions (with
+Enumerated: seeded random grammars over <= 3 terminals / <= 5 nonterminals / <= 9 productions (with
 epsilon rules, recursive start symbols, and the public rewrite_eps_productions() pass applied to a part
 of them) x every token sequence up to a stated length."""
 import itertools
@@ -19,7 +19,7 @@ import random
 CONTRACTS = []
 LEVEL = "exploration"
 TERMS = ["a", "b", "c"]
-NONTERMS = ["S", "A", "B"]
+NONTERMS = ["S", "A", "B", "C", "D"]
 
 
 class _Lexer:
@@ -181,9 +181,9 @@ def check_grammar(prods, start, rewrite_eps, maxlen):
 
 
 def random_grammar(rng):
-    nnt = rng.randrange(1, 4)
+    nnt = rng.randrange(1, 6)
     nts = NONTERMS[:nnt]
-    nprod = rng.randrange(1, 7)
+    nprod = rng.randrange(1, 7) if nnt <= 3 else rng.randrange(nnt, 10)
     prods = []
     for i in range(nprod):
         name = nts[0] if i == 0 else rng.choice(nts)
@@ -221,6 +221,11 @@ FIXED = [
     ([("S", ("A",)), ("A", ("A", "b", "A")), ("A", ("a",))], "S", False),              # ambiguous: conflict resolved or rejected
     ([("S", ("a", "S", "b")), ("S", ("c",))], "S", False),
     ([("S", ("S", "S")), ("S", ("a",))], "S", False),
+    # nullable nonterminal in the middle / at the start of a production, indirect nullability (4+ nonterminals)
+    ([("S", ("A", "B")), ("A", ("a",)), ("B", ("C", "c")), ("C", ("b",)), ("C", ())], "S", False),
+    ([("S", ("D",)), ("D", ()), ("D", ("D", "A")), ("A", ("a", "B", "C", "c")), ("B", ("b",)), ("C", ("b", "a")), ("C", ("D2",)) if False else ("C", ())], "S", False),
+    ([("S", ("A", "B", "C", "c")), ("A", ("a",)), ("B", ("b",)), ("C", ("D",)), ("D", ())], "S", False),
+    ([("S", ("A", "B", "c")), ("A", ("a",)), ("B", ("C", "D")), ("C", ()), ("D", ()), ("D", ("b",))], "S", False),
 ]
 
 
@@ -247,7 +252,7 @@ def bounded(tier_name, rnd):
             vio.append({"name": "%s [grammar %s start=%s rewrite_eps=%s]" % (what, prods, start, rew),
                         "input": {"prods": [[n, list(r)] for n, r in prods], "start": start, "rewrite_eps": rew, "maxlen": maxlen}, "observed": what})
     return {"evaluations": ev, "distinct_nontrivial": nontriv, "exhaustive": False,
-            "rule": "%d seeded random grammars (seed %d; <= 3 terminals, <= 3 nonterminals, <= 6 productions of length 0..3, 30%% passed through "
+            "rule": "%d seeded random grammars (seed %d; <= 3 terminals, <= 5 nonterminals, <= 9 productions of length 0..3, 30%% passed through "
                     "rewrite_eps_productions) + %d fixed grammars (recursive start symbol, epsilon rules, ambiguity); for every grammar the builder accepts, every "
                     "token sequence of length 0..%d is parsed and compared with the bounded language enumeration; non-trivial = grammars the builder accepted "
                     "(the others are rejected or skipped)" % (count, seed0, len(FIXED), maxlen),
